@@ -1,7 +1,7 @@
 (* C18 at source level: MatrixCard::get_number_at_coordinates and
    MatrixCardVerifier::get_matrix_coordinates as TRANSLATED FROM src/matrix_card.rs on this run.
    Only statements; every proof is `exact` of a lemma from proofs/steps/. *)
-From WS Require Import lib.Bytes lib.Res lib.StepLoop Consts Steps spec.Select model.Arr model.MatrixCard proofs.MatrixCard proofs.steps.Matrix.
+From WS Require Import lib.Bytes lib.Res lib.StepLoop Consts Steps spec.Select model.Arr model.MatrixCard model.MatrixProof spec.MatrixProof proofs.MatrixCard proofs.MatrixProof proofs.steps.Matrix proofs.steps.MatrixProof.
 Local Open Scope N_scope.
 
 (* the lookup returns the digits printed at row y, column x *)
@@ -28,6 +28,30 @@ Theorem C18_source_coordinates : forall w h count seed,
              length cs = N.to_nat count /\ NoDup cs /\ Forall (fun c => c < w * h) cs.
 Proof. exact matrix_source_coordinates. Qed.
 
+(* the server-side check as TRANSLATED (MatrixCardVerifier::new with MD5 / HMAC objects, Rc4::new, the
+   two loops, enter_value, into_proof): it never panics and returns true exactly when the presented proof
+   is the proof of the digits of the cells printed at the challenged coordinates, in round order *)
+Theorem C18_source_verify_iff : forall d w h data count seed K p,
+  1 <= d -> d < 256 -> w < 256 -> 1 <= w * h <= 255 -> length data = N.to_nat (d * h * w) ->
+  1 <= count <= w * h -> seed < 2 ^ 64 ->
+  exists cells cs picked b,
+    printer_cells {| c_digits := d; c_width := w; c_height := h; c_data := data |} = Ok cells /\
+    tr_matrix_generate_coordinates w h count seed = Some cs /\
+    Forall2 (fun co cell => nth_error cells (N.to_nat co) = Some cell) cs picked /\
+    tr_matrix_verify_matrix_card_hash d w h data count seed K p = Some b /\
+    (b = true <-> p = matrix_proof seed K (concat picked)).
+Proof.
+  intros d w h data count seed K p Hd Hd' Hw Hwh Hl Hc Hs.
+  destruct (proofs.MatrixProof.verify_iff d w h data count seed K p Hd Hwh Hl Hc Hs) as (c & cells & cs & picked & b & Hfd & Hpc & Hg & Hf & Hv & Hb).
+  assert (Ec : c = {| c_digits := d; c_width := w; c_height := h; c_data := data |}).
+  { unfold from_data in Hfd. destruct (_ =? _)%N in Hfd; [|discriminate]. now injection Hfd as <-. }
+  subst c. exists cells, cs, picked, b. split; [exact Hpc|]. split; [rewrite matrix_generate_coordinates_translated, Hg; reflexivity|].
+  split; [exact Hf|]. split; [|exact Hb].
+  pose proof (matrix_verify_matrix_card_hash_translated {| c_digits := d; c_width := w; c_height := h; c_data := data |} count seed K p Hd' Hw) as T.
+  cbn [c_digits c_width c_height c_data] in T. rewrite T, Hv. reflexivity.
+Qed.
+
 Print Assumptions C18_source_lookup.
+Print Assumptions C18_source_verify_iff.
 Print Assumptions C18_source_coordinates.
 Print Assumptions C18_source_round.
